@@ -138,3 +138,103 @@ func WGWait(wg *sync.WaitGroup) {
 	}
 	wg.Wait()
 }
+
+// ---- Cond -------------------------------------------------------------------------
+//
+// c.Wait / c.Signal / c.Broadcast become CondWait / CondSignal / CondBroadcast.
+// Under the scheduler waiters take tickets and are released first come first
+// served; a Signal nobody waits for is lost, as with the real thing.
+
+const maxCond = 32
+
+var (
+	condPtr     [maxCond]*sync.Cond
+	condNext    [maxCond]uint64 // tickets handed out
+	condGranted [maxCond]uint64 // tickets released
+)
+
+//go:norace
+func condReset() {
+	for i := range condPtr {
+		condPtr[i] = nil
+	}
+}
+
+//go:norace
+func condSlot(c *sync.Cond) int {
+	free := -1
+	for i := range condPtr {
+		if condPtr[i] == c {
+			return i
+		}
+		if condPtr[i] == nil && free < 0 {
+			free = i
+		}
+	}
+	if free < 0 {
+		// evict one nobody waits on
+		for i := range condPtr {
+			if condGranted[i] == condNext[i] {
+				free = i
+				break
+			}
+		}
+	}
+	if free < 0 {
+		abort("too many condition variables in use by the library")
+	}
+	condPtr[free], condNext[free], condGranted[free] = c, 0, 0
+	return free
+}
+
+//go:norace
+func condTake(i int) uint64 {
+	t := condNext[i]
+	condNext[i]++
+	return t
+}
+
+//go:norace
+func condReleased(i int, c *sync.Cond, t uint64) bool { return condPtr[i] == c && condGranted[i] > t }
+
+//go:norace
+func condSignal(c *sync.Cond, all bool) {
+	i := condSlot(c)
+	if all {
+		condGranted[i] = condNext[i]
+	} else if condGranted[i] < condNext[i] {
+		condGranted[i]++
+	}
+}
+
+func CondWait(c *sync.Cond) {
+	if !schedActive() {
+		c.Wait()
+		return
+	}
+	i := condSlot(c)
+	t := condTake(i)
+	c.L.Unlock()
+	for !condReleased(i, c, t) {
+		blockedYield()
+	}
+	if tl, ok := c.L.(interface{ TryLock() bool }); ok {
+		Lock(tl.TryLock)
+	} else {
+		c.L.Lock()
+	}
+}
+
+func CondSignal(c *sync.Cond) {
+	if schedActive() {
+		condSignal(c, false)
+	}
+	c.Signal()
+}
+
+func CondBroadcast(c *sync.Cond) {
+	if schedActive() {
+		condSignal(c, true)
+	}
+	c.Broadcast()
+}
